@@ -100,7 +100,7 @@ def failing_link(d, rng, kind):
     return sub, args, env
 
 
-GC_EVENTS = {"ScopeBegin", "ActBegin", "ActEnd", "ActDec", "DelayPop", "Send", "SendLocal", "Err", "Item", "Fail",
+GC_EVENTS = {"ScopeBegin", "DelayPush", "ActBegin", "ActEnd", "ActDec", "DelayPop", "Send", "SendLocal", "Err", "Item", "Fail",
              "SlotPark", "SlotSwap", "TaskStart", "ScopeEnd"}
 
 
